@@ -28,17 +28,37 @@ THOROUGH = QUICK + [
     ('closeheld-2callers', [1, 2], 2, 3, 1, 1, 1, ['peerclose', 'closeheld', 'reply']),
     ('fallback-2callers', [1, 2], 1, 2, 1, 1, 1, ['fb', 'reply', 'peerclose', 'closeheld']),
     ('unflushed-2callers', [1, 2], 1, 2, 1, 2, 1, ['write', 'reply', 'peerclose']),
-    ('all-1caller', [1], 2, 3, 2, 2, 2, ['fb', 'reply', 'peerclose', 'closeheld', 'sess', 'rebuild', 'write']),
+    ('all-1caller', [1], 1, 2, 2, 2, 1, ['fb', 'reply', 'peerclose', 'closeheld', 'sess', 'rebuild', 'write']),
+    ('all-2callers-nosess', [1, 2], 1, 2, 1, 2, 1, ['fb', 'reply', 'peerclose', 'closeheld', 'write']),
 ]
+# checked by TLC only (no graph dump, nothing replayed): everything at once
+BIG = ('all-2callers', [1, 2], 1, 2, 2, 2, 1, ['fb', 'reply', 'peerclose', 'closeheld', 'sess', 'rebuild', 'write'])
 
 
-# how the CURRENT code behaves in the three places where the spec has a switch (FALSE = the pinned tree). If a finding is
-# repaired in /repo, flip the matching constant here (otherwise the check still exits 0 but reports SPEC-DRIFT).
-# VERIF_C15_CODE=drop,unread,wbuf overrides for experiments with a repaired worktree.
-AS_CODE = {'drop': False, 'unread': False, 'wbuf': False}
-for _k in (os.environ.get('VERIF_C15_CODE') or '').split(','):
+# How the CURRENT code behaves in the three places where the spec has a switch. TRUE = the repaired code of /repo HEAD
+# (fix: commits 9994681, f652d15): getOrOpenStream closes what it discards / refuses a pooled stream with unread data,
+# reset() refuses a non-empty write buffer. These constants only decide what the spec PREDICTS (conforming vs. drift);
+# verdicts come from the oracles on the real objects and from known-findings.txt alone.
+# VERIF_C15_PREFIX_CODE=drop,unread,wbuf switches them back for experiments with a worktree that predates the fixes.
+AS_CODE = {'drop': True, 'unread': True, 'wbuf': True}
+for _k in (os.environ.get('VERIF_C15_PREFIX_CODE') or '').split(','):
     if _k in AS_CODE:
-        AS_CODE[_k] = True
+        AS_CODE[_k] = False
+
+
+def S(a, c=0, s=0, f=False):
+    return {'a': a, 'c': c, 's': s, 'f': f}
+
+
+# Regression cases: the TLC counterexamples (strict NoLeak / Fresh on the pre-fix design, see thorough tier) that
+# reproduced the three defects on the real code before the fixes. They are replayed RAW in every run; if one shows its
+# defect again it is a VIOLATION (or a KNOWN-FINDING if the slug is listed in known-findings.txt).
+REGRESSION = [
+    (SLUG_DISCARD, [S('Get', 1), S('Send', 1), S('Put', 1), S('PeerClose', s=1), S('Get', 1)]),
+    (SLUG_LATE, [S('Get', 1), S('Send', 1), S('Put', 1), S('PeerReply', s=1), S('Get', 1)]),
+    (SLUG_WRITE, [S('Get', 1), S('Write', 1), S('Put', 1), S('Get', 1)]),
+    (SLUG_WRITE, [S('Get', 1), S('Send', 1), S('Write', 1), S('PeerReply', s=1), S('Read', 1), S('Put', 1), S('Get', 1)]),
+]
 
 
 def cfg_text(callers, cap, n, maxsess, maxowed, maxunread, feat, invs=INVS, props=PROPS_TL, drop=None, chk=None, wb=None):
@@ -323,6 +343,13 @@ def run(prop, tier, seed, replay=None):
     ex = ThreadPoolExecutor(max_workers=12)
     fg = [ex.submit(graph, p) for p in plans]
     fs = {} if quick else {k: ex.submit(strict, k) for k in ('noleak', 'fresh', 'freshw', 'repaired')}
+    fbig = None
+    if not quick:
+        def big():
+            name, callers, cap, n, ms, mo, mu, feat = BIG
+            return tlc.run('StreamPool', 'mc.cfg', timeout=1500, workers=6,
+                           extra_files={'mc.cfg': cfg_text(callers, cap, n, ms, mo, mu, feat)})
+        fbig = ex.submit(big)
     f1 = ex.submit(go_raw, job1, 900 if quick else 2400)
     ftr = ex.submit(lambda: traces_job(f1.result()))
     graphs = [f.result() for f in fg]
@@ -343,7 +370,7 @@ def run(prop, tier, seed, replay=None):
         ck.add('transitions', len(edges))
         hs = histories_from_graph(name, plan, nodes, edges, inits)
         total = len(hs)
-        limit = 250 if quick else 5000
+        limit = 250 if quick else 3000
         if len(hs) > limit:
             hs = rng.sample(hs, limit)
         per_plan[name] = (res, len(edges), total, len(hs))
@@ -353,6 +380,9 @@ def run(prop, tier, seed, replay=None):
     #         marks the classes with the ghosts `leaked` / `late`; the shortest TLC behaviour into each class decides the
     #         KNOWN-FINDING line. thorough: plus the counterexamples of the strict properties.
     wit = []
+    for i, (slug, steps) in enumerate(REGRESSION):
+        wit.append((slug, {'name': 'regression-%d-%s' % (i, slug), 'cap': 1, 'callers': 1, 'n': 2, 'raw': True, 'steps': steps}))
+    # on a tree whose spec switches say "pre-fix", the ghost-marked classes exist in the graphs: shortest behaviours into them
     wplans = [(plans[0], graphs[0], [SLUG_DISCARD, SLUG_LATE])]
     wplans += [(p, g, [SLUG_WRITE, SLUG_WRITE + '#swap']) for p, g in zip(plans, graphs) if p[0] == 'unflushed-1caller']
     for wp, wg, want in wplans:
@@ -426,10 +456,11 @@ def run(prop, tier, seed, replay=None):
             ck.add('transitions', rep.generated)
         for kind, (pl, slug, pname) in STRICT.items():
             lr = leads[kind]
-            ck.cov['design_lead_' + kind] = ('strict %s on the as-the-code spec (%s): %s' % (
+            ck.cov['design_lead_' + kind] = ('strict %s on the pre-fix design (switch off) (%s): %s' % (
                 pname, slug,
                 ('violated, depth %d: %s' % (len(lr.trace), ' ; '.join(fmt_step(step_of(l)) for l, _ in lr.trace[1:])))
                 if lr.violation else ('holds (%d states)' % lr.distinct if lr.ok else 'tool error')))
+    fixed_ok = []
     for slug, h in wit:
         vs = [v for v in wit_viol if v['history'] == h['name']]
         hist = ' ; '.join(fmt_step(s) for s in h['steps'])
@@ -440,16 +471,18 @@ def run(prop, tier, seed, replay=None):
             else:
                 v = dict(v)
                 v['steps'] = h['steps']
-                ck.violation('%s: %s -- history: %s' % (slug, v['detail'], hist), replay_obj(v), name='%s_%s.json' % (prop, slug))
+                ck.violation('%s: %s -- history: %s' % (slug, v['detail'], hist), replay_obj(v), name='%s_%s.json' % (prop, h['name']))
+        elif h['name'].startswith('regression-') or h['name'].startswith('tlc-counterexample-'):
+            fixed_ok.append('%s: %s' % (slug, hist))
+            if (prop, slug) in known:
+                ck.notes.append('the listed known finding %s no longer reproduces on this tree (%s)' % (slug, hist))
         else:
             msg = 'the TLC behaviour into class %s does not show the defect on the real code (%s)' % (slug, hist)
-            if (prop, slug) in known:
-                ck.notes.append('the listed known finding %s no longer reproduces on this tree: %s' % (slug, msg))
-            else:
-                ck.notes.append(msg)
-            print('SPEC-DRIFT module=StreamPool at=class %s: the spec (as-the-code constants) predicts a violation the '
+            ck.notes.append(msg)
+            print('SPEC-DRIFT module=StreamPool at=class %s: the spec (pre-fix constants) predicts a violation the '
                   'real code does not show: %s' % (slug, hist))
             ck.cov['spec_drift'] = True
+    ck.cov['regression_witnesses_not_reproducing'] = fixed_ok
 
     # ---- 4. free-running concurrent callers: recorded invoke/return histories validated against the spec by TLC
     ck.cov['concurrent_runs_on_real_code'] = r1['conc_runs']
@@ -483,5 +516,17 @@ def run(prop, tier, seed, replay=None):
         ck.add('traces_validated_against_impl', okc)
         ck.cov['concurrent_traces_accepted_by_spec'] = '%d of %d' % (okc, len(sel))
         ck.sample({'recorded_concurrent_history': ['%s c%d %s s%d %s' % (e['ev'], e['c'], e['op'], e['s'], e['out']) for e in sel[0][:24]]})
+    if fbig is not None:
+        b = fbig.result()
+        if b.violation:
+            ck.inconc('TLC reports %s on StreamPool %s (design-level lead, not a verdict about the code)' % (b.violation, BIG[0]))
+        elif b.ok:
+            ck.add('states', b.distinct)
+            ck.add('transitions', b.generated)
+            ck.cov['tlc_configs'].append('StreamPool %s (Callers=%s Cap=%d N=%d MaxSess=%d MaxOwed=%d MaxUnread=%d Feat=%s), TLC only: %d '
+                                         'distinct states, %d generated, depth %d, %.0fs' % (BIG[0], BIG[1], BIG[2], BIG[3], BIG[4], BIG[5],
+                                                                                           BIG[6], BIG[7], b.distinct, b.generated, b.depth, b.wall))
+        else:
+            ck.notes.append('TLC did not finish the largest configuration (%s) in time: not counted' % BIG[0])
     ex.shutdown(wait=False)
     return ck.finish()
